@@ -343,8 +343,8 @@ def execute(program, ch: Chooser) -> Result:  # noqa: C901
             return
         if any(d.in_exit or d.in_enter for ds in r.disp.values() for d in ds):
             return  # waiting for a disposable, not for the tasks
-        if r.phase[0] != "exiting":
-            return
+        if r.phase[0] not in ("exiting", "entering"):
+            return  # (entering: the roll-back of a cancelled enter winds the scope down as well)
         # (a task that has been asked to cancel and is still cleaning up is legitimately awaited)
         blocked = [s["name"] for s in r.all_spawned if s["task"] is not None and not s["task"].done() and s["task"].cancelling() == 0]
         if blocked:
